@@ -114,7 +114,18 @@ func c17Serve(list []p9p.Dir, batches []int, menu []int, seq []int) (sig, text s
 				return "wrong-offset-accepted", fmt.Sprintf("read at offset %d accepted (%d bytes) while the running offset is %d (%s)", po, n, off, desc()), reads
 			}
 		}
+		// the caller's buffer is, on alternate reads, a window of a larger one
+		// (a pooled buffer): "at most the requested number of bytes" is its
+		// length, not its capacity; what lies beyond must stay untouched
 		buf := make([]byte, count)
+		var backing []byte
+		if step%2 == 1 {
+			backing = make([]byte, count+4096)
+			for i := range backing {
+				backing[i] = 0xEE
+			}
+			buf = backing[:count]
+		}
 		var n int
 		var err error
 		if p := catch(func() { n, err = rd.Read(ctx, buf, off) }); p != "" {
@@ -126,6 +137,11 @@ func c17Serve(list []p9p.Dir, batches []int, menu []int, seq []int) (sig, text s
 		}
 		if n > count {
 			return "too-many-bytes", fmt.Sprintf("read of %d returned %d bytes (%s)", count, n, desc()), reads
+		}
+		for i := count; i < len(backing); i++ {
+			if backing[i] != 0xEE {
+				return "wrote-beyond-request", fmt.Sprintf("read of %d bytes wrote at index %d of the caller's larger buffer (%s)", count, i, desc()), reads
+			}
 		}
 		if n == 0 {
 			break
